@@ -1,6 +1,7 @@
 import Netconan.Generated.SrcFull
 import Netconan.Proofs.SrcTieText
 import Netconan.Proofs.SrcTieSecrets
+import Netconan.Proofs.SrcTieWords
 /-!
 # The per-line loop body of `anonymize_io` with all of its state is the pure pipeline step
 
@@ -87,14 +88,14 @@ theorem opt4_S (p : Pipeline) (l : List Char) (s : FaState) (hg : Good p s) :
 
 /-- the two stateless stages in the whole-state monad -/
 theorem optW_S (p : Pipeline) (l : List Char) (s : FaState) :
-    (Py.optCase p.words (fun a => S.bind (resS (Words.anonymize p.wenv a l)) (fun x => S.pure x)) (S.pure l) s
+    (Py.optCase p.words (fun a => S.bind (resS (Src.words_anonymize p.wenv a l)) (fun x => S.pure x)) (S.pure l) s
      = (match wordStage p l with
         | .error e => .error e
         | .ok o => .ok (o, s))) := by
   unfold wordStage
   cases p.words with
   | none => rfl
-  | some w => simp only [Py.optCase_some, smbind_apply, resS, optStage, liftRes]; cases Words.anonymize p.wenv w l <;> rfl
+  | some w => simp only [Py.optCase_some, smbind_apply, resS, optStage, liftRes, words_anonymize_tie]; cases Words.anonymize p.wenv w l <;> rfl
 
 theorem optA_S (p : Pipeline) (l : List Char) (s : FaState) :
     (Py.optCase p.asn (fun a => S.bind (resS (AsNum.anonymize a l)) (fun x => S.pure x)) (S.pure l) s
